@@ -98,7 +98,8 @@ InvViol(W, St) ==
     (IF C03_NotBeforePlan(St) THEN {} ELSE {<<"inv", "C03_NotBeforePlan">>}) \cup
     (IF C06_StarvedNeverRuns(St) THEN {} ELSE {<<"inv", "C06_StarvedNeverRuns">>}) \cup
     (IF C06_CancelClosure(St) THEN {} ELSE {<<"inv", "C06_CancelClosure">>}) \cup
-    (IF C07_OneBranch(St) THEN {} ELSE {<<"inv", "C07_OneBranch">>})
+    (IF C07_OneBranch(St) THEN {} ELSE {<<"inv", "C07_OneBranch">>}) \cup
+    (IF C19_ClosedLoop(St) THEN {} ELSE {<<"inv", "C19_ClosedLoop">>})
 
 EdgeViol(A, Bs) ==
     {<<"edge", A.ts[t].st, Bs.ts[t].st>> : t \in {t \in 1..Len(A.ts) : ~LegalEdge(A.ts[t].st, Bs.ts[t].st)}}
@@ -203,6 +204,7 @@ Next ==
                      \cup (IF h.err = "" /\ ~HasExc(r) THEN RowViol(RowsOf(World, QRemove(Sx, e), e, B, h.S), r.rows) ELSE {})
                      \cup (IF r.ty = E_END /\ ~C08_Counters(L) THEN {<<"inv", "C08_Counters">>} ELSE {})
                      \cup (IF r.ty = E_END /\ ~C05_NoPrematureEnd(World, L) THEN {<<"inv", "C05_NoPrematureEnd">>} ELSE {})
+                     \cup (IF r.ty = E_END /\ ~C19_ClosedLoopTotal(World, L) THEN {<<"inv", "C19_ClosedLoopTotal">>} ELSE {})
                      \cup (IF r.ty = E_END /\ ~C05_FeasibleAllDone(World, L) THEN {<<"inv", "C05_FeasibleAllDone">>} ELSE {})
                      \cup (IF C05_ByTimeout(World, L) THEN {}
                            ELSE IF C05_SchedulerOvershoot(World, L) THEN {<<"inv", "C05_ByTimeout_scheduler_runtime_overshoot">>}
